@@ -34,6 +34,11 @@ class Rewrite(ast.NodeTransformer):
     def visit_Call(self, node):
         self.generic_visit(node)
         f = node.func
+        if isinstance(f, ast.Attribute) and isinstance(f.value, ast.Constant) and f.attr == 'format' and \
+                isinstance(f.value.value, str) and not any(isinstance(a, ast.Starred) for a in node.args) and \
+                all(k.arg is not None for k in node.keywords):
+            return ast.copy_location(
+                ast.Call(ast.Name('sx__format', ast.Load()), [f.value] + node.args, node.keywords), node)
         if isinstance(f, ast.Attribute) and isinstance(f.value, ast.Constant) and not node.keywords:
             if f.attr == 'join' and len(node.args) == 1:
                 return ast.copy_location(
@@ -119,11 +124,11 @@ def sx_join(sep, it):
     return sep.join(items)
 
 
-def sx_format(t, *a):
-    if any(type(x).__name__ == 'SStr' for x in a):
+def sx_format(t, *a, **kw):
+    if any(type(x).__name__ == 'SStr' for x in a) or any(type(x).__name__ == 'SStr' for x in kw.values()):
         from .sstr import sx_format_sstr
-        return sx_format_sstr(t, *a)
-    return t.format(*a)
+        return sx_format_sstr(t, *a, **kw)
+    return t.format(*a, **kw)
 
 
 LOOP_HOOK = [None]
